@@ -5,4 +5,4 @@ set -e
 cd "$(dirname "$0")"
 python3-vt translator/generate_all.py
 (cd lean && lake build InovesaModel ivdriver)
-python3-vt -c "import sys; sys.path.insert(0,'check'); import lib; lib.build_harness(); "
+python3-vt -c "import sys; sys.path.insert(0,'check'); import lib; lib.build_harness(); lib.build_h5dump(); lib.build_h5make()"
